@@ -458,6 +458,30 @@ pub fn run_c05(cfg: &Cfg) {
             out.case(&req, &obs, true);
         }
     }
+    // ping(dest): the destination is a header field: the message marshals exactly if the name is a valid bus name
+    for n in BUSES {
+        let m = rustbus::standard_messages::ping(n.to_string());
+        let mut buf = Vec::new();
+        let r = rustbus::wire::marshal::marshal(&m, NonZeroU32::new(3).unwrap(), &mut buf);
+        let want = vcore_spec("bus", n);
+        let req = format!("c05.ping {}", cps(n));
+        if r.is_ok() != want {
+            out.violation(&req, &format!("standard_messages::ping({:?}): marshal {} but the name is {} bus name", n, if r.is_ok() { "succeeds" } else { "refuses" }, if want { "a valid" } else { "not a valid" }));
+        }
+        if r.is_ok() {
+            let mut full = buf.clone();
+            full.extend_from_slice(m.get_buf());
+            match vcore::peer::decode_frame(&full) {
+                Ok(d) => {
+                    if d.dynheader.destination.as_deref() != Some(*n) || d.dynheader.member.as_deref() != Some("Ping") {
+                        out.violation(&req, &format!("ping({:?}) arrives with destination {:?} member {:?}", n, d.dynheader.destination, d.dynheader.member));
+                    }
+                }
+                Err(e) => out.violation(&req, &format!("ping({:?}) marshals but does not decode: {}", n, e)),
+            }
+        }
+        out.hit("standard_message_ping_name");
+    }
     // the constructors take arbitrary &str: an argument containing NUL has no encoding; they must not panic
     for k in ["request_name", "release_name", "add_match", "remove_match"] {
         let r = guard(|| match k {
